@@ -208,7 +208,7 @@ def oracle_unfitted(case):
 def invalid_strategy():
     return st.fixed_dictionaries({
         'model': st.sampled_from(['gaussian', 'vine-center', 'vine-direct', 'vine-regular']),
-        'bad': st.sampled_from(['empty', 'empty-columns', 'object', 'str', 'bool', 'nan', 'nan-one-cell']),
+        'bad': st.sampled_from(['empty', 'empty-columns', 'object', 'str', 'bool', 'nan', 'nan-one-cell', 'nan-float32', 'nan-float16']),
         'container': st.sampled_from(['frame', 'frame', 'ndarray']), 'd': st.integers(2, 4), 'n': st.integers(5, 40), 'seed': S.SEEDS,
     })
 
@@ -237,6 +237,10 @@ def oracle_invalid(case):
     elif bad == 'nan':
         Y = X.copy()
         Y[:, 0] = np.nan
+        data = pd.DataFrame(Y, columns=['c%d' % j for j in range(d)])
+    elif bad in ('nan-float32', 'nan-float16'):
+        Y = X.astype(np.float32 if bad == 'nan-float32' else np.float16)
+        Y[rs.randint(n), rs.randint(d)] = np.nan
         data = pd.DataFrame(Y, columns=['c%d' % j for j in range(d)])
     else:
         Y = X.copy()
